@@ -357,7 +357,67 @@ EXPLANATION = (
 )
 ASSUMPTIONS = ['titanfp implements FPCore 2.0', 'fpc.<Class> names the FPCore operator of the same (lowercased) name']
 
+# ----------------------------------------------------------------------
+# R2 reader: parallel binding forms read every bound value under the entry scope
+
+def r2_parallel_bindings(ctx: Ctx):
+    """`(let ([x a] [y b]) ..)`, `(while ..)`, `(for ..)`, `(tensor* ..)`: in the plain form every bound value is read in
+    the scope the form was entered with; only the starred form lets a value see the earlier bindings of the same form.
+    For each loop over `<e>.*_bindings` that visits a bound value, the scope handed to that visit must not depend on a
+    name the loop itself extends -- except inside the starred alternative of a test on the form's star-ness."""
+    cdef = ctx.repo.cls(FRONT, '_FPCore2FPy')
+    checked = 0
+    for fn in [s for s in cdef.body if isinstance(s, ast.FunctionDef)]:
+        ann = fn.args.args[1].annotation if len(fn.args.args) > 1 else None
+        cls = (dotted(ann) or '') if ann is not None else ''
+        if not cls.startswith('fpc.'):
+            continue
+        star_only = cls.endswith('Star')
+        star_tests = {norm(s.targets[0]) for s in walk_no_nested(fn) if isinstance(s, ast.Assign) and isinstance(s.value, ast.Call)
+                      and call_name(s.value) == 'isinstance' and norm(s.value.args[1]).endswith('Star')}
+
+        def is_star_test(t: ast.AST) -> bool:
+            return norm(t) in star_tests or (isinstance(t, ast.Call) and call_name(t) == 'isinstance' and norm(t.args[1]).endswith('Star'))
+        for lp in [s for s in walk_no_nested(fn) if isinstance(s, ast.For) and norm(s.iter).endswith('_bindings') and norm(s.iter).startswith('e.')]:
+            loopvars = {x.id for x in ast.walk(lp.target) if isinstance(x, ast.Name)}
+            # names the loop extends from one binding to the next
+            carried: set[str] = set()
+            for s in ast.walk(lp):
+                if isinstance(s, ast.Assign):
+                    for t in s.targets:
+                        if isinstance(t, ast.Subscript) and isinstance(t.value, ast.Name):
+                            carried.add(t.value.id)
+                        if isinstance(t, ast.Name) and any(isinstance(x, ast.Name) and x.id == t.id for x in ast.walk(s.value)):
+                            carried.add(t.id)       # env = {**env, var: t}
+            locals_: dict[str, ast.AST] = {s.targets[0].id: s.value for s in lp.body if isinstance(s, ast.Assign) and len(s.targets) == 1 and isinstance(s.targets[0], ast.Name)}
+            for k in [c for c in calls_in(lp) if call_name(c) == 'self._visit' and len(c.args) == 2]:
+                subj = k.args[0]
+                if not (isinstance(subj, ast.Name) and subj.id in loopvars):
+                    continue
+                scope = k.args[1]
+                if isinstance(scope, ast.Name) and scope.id in locals_:
+                    scope = locals_[scope.id]
+
+                def leaks(e: ast.AST, under_star: bool) -> list[str]:
+                    if isinstance(e, ast.IfExp) and is_star_test(e.test):
+                        return leaks(e.body, True) + leaks(e.orelse, under_star)
+                    out: list[str] = []
+                    if isinstance(e, ast.Name) and e.id in carried and not under_star:
+                        out.append(e.id)
+                    for ch in ast.iter_child_nodes(e):
+                        out += leaks(ch, under_star)
+                    return out
+                bad = [] if star_only else leaks(scope, False)
+                checked += 1
+                ctx.check(not bad, FRONT, k, f'_FPCore2FPy.{fn.name}', f'{cls[4:]}: bound value `{norm(subj)}` of `{norm(lp.iter)}` is read under {norm(scope)[:70]}',
+                          f'the scope depends on `{bad[0] if bad else "?"}`, which the loop extends with the earlier bindings: a plain (parallel) form would be read as its starred '
+                          '(sequential) variant, e.g. `(let ([x y] [y x]) (- x y))` gives 0 instead of x - y swapped')
+    if checked < 6:
+        raise ShapeError(f'only {checked} bound-value visits found in the FPCore reader')
+
+
 RULES = [
+    Rule('C12.R2', 'reader: in a parallel binding form every bound value is read under the entry scope; only starred forms thread the bindings', r2_parallel_bindings, 6, 'F'),
     Rule('C12.F1', 'writer: a `!` annotation covers the body of its with-block only', f1_annotation_scope, 2, 'F'),
     Rule('C12.T1', 'writer and reader operator/constant tables name the same operations and are mutually inverse', t1_operator_tables, 150, 'T'),
     Rule('C12.T2', 'rounding-mode, overflow and precision tables; fixed-point field order; refusals of unnameable contexts', t2_context_tables, 35, 'T'),
@@ -368,6 +428,8 @@ RULES = [
 from ..selftest import Mutant  # noqa: E402
 
 MUTANTS = [
+    Mutant('let-read-as-let-star', FRONT, "            val_ctx = _Ctx(env=env, props=ctx.props, stmts=ctx.stmts) if is_star else ctx", "            val_ctx = _Ctx(env=env, props=ctx.props, stmts=ctx.stmts)", 'C12.R2', 'seeded change C12b'),
+    Mutant('for-inits-read-sequentially', FRONT, "            init_ctx = _Ctx(init_env if is_star else ctx.env, props=ctx.props, stmts=ctx.stmts)", "            init_ctx = _Ctx(init_env, props=ctx.props, stmts=ctx.stmts)", 'C12.R2'),
     Mutant('continuation-annotated-with-function-context', BACK, "            ctx = fpc.Ctx(dict(self._enclosing_props[-1]), ctx)", "            ctx = fpc.Ctx(dict(self._enclosing_props[0]), ctx)", 'C12.F1',
            'seeded change C12a: inside a nested `with`, what follows the inner block runs under the function\'s context'),
     Mutant('enclosing-props-never-popped', BACK, "        finally:\n            self._enclosing_props.pop()\n        return fpc.Ctx(props, body)", "        finally:\n            pass\n        return fpc.Ctx(props, body)", 'C12.F1'),
